@@ -61,6 +61,12 @@ def setup_import_path():
         raise Machinery(f"xgcm imported from {src}, expected {repo_path()}")
 
 
+def _worker_init():
+    # pool workers: the default SIGTERM action (the pool ends them that way); only the check process itself cleans up
+    signal.signal(signal.SIGTERM, signal.SIG_DFL)
+    setup_import_path()
+
+
 class CallTimeout(Exception):
     """a single execution of the implementation exceeded its time limit (e.g. a changed loop that never ends)"""
 
@@ -295,8 +301,14 @@ class Ctx:
             raise
         except BaseException as ex:
             raise Machinery(f"the implementation under test does not import: {type(ex).__name__}: {ex}")
-        with mp.get_context("fork").Pool(procs, initializer=setup_import_path) as pool:
-            return pool.map(_timed_call, [(fn, x, limit) for x in items], chunksize=chunksize)
+        with mp.get_context("fork").Pool(procs, initializer=_worker_init) as pool:
+            res = pool.map_async(_timed_call, [(fn, x, limit) for x in items], chunksize=chunksize)
+            # every item has its own time limit; this outer limit only ends a run whose worker is blocked where no
+            # Python-level signal handler can run (the with-block then terminates the pool)
+            try:
+                return res.get(timeout=max(900.0, 3.0 * limit * len(items) / max(1, procs)) if self.tier != "thorough" else 6 * 3600.0)
+            except mp.TimeoutError:
+                raise Machinery("a worker executing the implementation did not return within the overall time limit")
 
     def cleanup(self):
         shutil.rmtree(self.scratch, ignore_errors=True)
@@ -389,6 +401,7 @@ def main(argv=None):
 
     main_pid = os.getpid()
     signal.signal(signal.SIGTERM, lambda s, f: _terminated(s, f) if os.getpid() == main_pid else os._exit(1))
+    # (forked pool workers reset this to the default action in _worker_init)
     try:
         if a.replay:
             with open(a.replay) as f:
